@@ -47,4 +47,24 @@ PROPS = {
         "trusted_base": STREAMS_TB,
         "assumptions": ["Go interface satisfaction: a value implements exactly its own type's vocab interface (the LessThan method pins it); validated by the exhaustive run"],
     },
+    "C12": {
+        "level": "proof",
+        "lean_modules": ["AV.GenProps.C12", "AV.Props.C12"],
+        "support_modules": ["AV.Spec.C12", "AV.Streams.Decode", "AV.Streams.Literal", "AV.Core.Iri"],
+        "theorems": [
+            "AV.GenProps.c12_table",
+            "AV.Props.C12.type_row", "AV.Props.C12.props_exact", "AV.Props.C12.known_keys_exact", "AV.Props.C12.prop_row",
+            "AV.Props.C12.kinds_exact", "AV.Props.C12.kinds_descendants", "AV.Props.C12.inherit_mono",
+            "AV.Props.C12.shipped_props", "AV.Props.C12.shipped_known_keys", "AV.Props.C12.shipped_kinds",
+        ],
+        "translator_scope": [r"type_", r"property_", r"T1", r"gen_lean", r"gen_harness", r"manager", r"T2 failed", r"values"],
+        "runners": [{"args": ["c12"], "timeout": 1200}],
+        "exhaustive": {"quick": False, "thorough": False},
+        "rule": "exhaustive: every (type, property) pair x {plain key with an IRI, plain key with a 2-element list, Map key} decoded by the real code and located (typed accessor / unknown); "
+                "every (property, kind) pair over 63 type kinds + 14 literal/IRI/odd probes located by Is*/GetType; plus sampled literal lexical forms "
+                "(durations incl. negative/date-only/large, dateTimes over years 1..9999, zones, month ends, fractions, counts, booleans) compared with the denotation; "
+                "non-trivial = the ontology gives the type that property / some declared kind accepts the probe / well-formed literal in range; distinct by input hash",
+        "trusted_base": STREAMS_TB + ["time.Parse/RFC 3339, float64->int conversion and regexp are re-implemented in Lean (AV/Streams/Literal.lean) and compared each run, not verified"],
+        "assumptions": ["element acceptance by nested types needs only the `type` member (nested property deserializers never fail); validated by the exhaustive (property, kind) run"],
+    },
 }
